@@ -201,6 +201,9 @@ def run_save(doc, fmt, name_class, existing, cross_fs, fault, args=None):
     old = None
     if existing:
         old = b"previous content of the file\n" * 3
+        if (len(name_class) + len(fmt) + (fault or {}).get("k", 0)) % 2 and new_bytes.swapcase() != new_bytes:
+            # ... or an earlier version of the same document: exactly as long, other bytes
+            old = new_bytes.swapcase()
         with io.open(named, "wb") as fh:
             fh.write(old)
     rec = Recorder(root, named, old, new_bytes, fault)
